@@ -906,6 +906,16 @@ def ft9(F, R):
             free = fn.reach([fn.succ(gb)[gi][0]], cut_blocks=[c[0] for c in empt])
             if free & stops:
                 okf = False
+    # the walk goes to the end of the chain: once in the loop, Ok is returned only after next_cluster answered EndOfFile
+    # (a walk that gives up after a counted number of links leaves the rest of a long chain allocated without an owner)
+    if len(ncs) == 1:
+        nb_ = ncs[0][0]
+        lp_ = [(h, body, backs) for (h, body, backs) in fn.loops() if nb_ in body][0]
+        isend = lambda g: g.kind == "variant" and g.variant == "EndOfFile" and has_sub(g.term, lambda q: q[0] == "call" and q[1] and path_matches(q[1], "FatVolume::next_cluster") and q[3] == nb_)
+        for (rb, ri, rv) in ok_returns(fn):
+            if rb in fn.reach([lp_[0]]):
+                okend, _ = guarded(fn, rb, isend, frm=lp_[0])
+                R.require(okend, fn, "walks-to-end", "truncate_cluster_chain can return Ok from its loop without having reached the end of the chain: the clusters behind stay allocated with no owner", fn.loc(rb, ri))
     R.require(okf, fn, "frees", "a cluster looked up by the truncation walk can be left allocated: after next_cluster(cursor) answered Ok / EndOfFile the walk moves on (or finishes) without update_fat(cursor, EMPTY)", fn.loc(0))
     for (b, t, cl, val, kind) in empt:
         c = strip_refs(cl)
@@ -1161,6 +1171,14 @@ def or6(F, R):
         R.bad(fn, "slot-before-free", msg, fn.loc(b), trace=trace)
     if not viol:
         R.ok(fn, "slot-before-free", "slot marked before chain release (or no release present: see FT8)")
+    # and the entry stays gone: once the slot is marked, delete writes no directory entry any more (putting the entry back
+    # after the chain was - partly - released leaves a live entry on free clusters)
+    slots = [b for b, t in fn.calls() if call_matches(t, ("FatVolume::delete_directory_entry",))]
+    for sb in slots:
+        after = fn.reach_after(sb)
+        for b, t in fn.calls():
+            if b in after and call_matches(t, ("FatVolume::write_entry_to_disk", "FatVolume::write_new_directory_entry")):
+                R.bad(fn, "entry-stays-deleted", "delete writes a directory entry again after the slot was marked deleted: a live entry can refer to clusters already released", fn.loc(b))
 
 
 # ---------------------------------------------------------------------------------------
@@ -1183,6 +1201,17 @@ def fl1(F, R):
         edges = [(gb, gi) for (gb, gi, g) in all_guards(fn) if g.kind == "bool" and last_field(g.term) == "dirty" and g.truth is False]
         reach = fn.reach([0], cut_edges=edges, cut_blocks=cut)
         R.require(b not in reach, fn, "dirty-implies-write", "flush can return Ok for a dirty file without writing its directory entry", fn.loc(b, i))
+    # a flush can always be carried through: the only assertion flush may make about the entry is "a length implies a cluster",
+    # so every explicit panic lies behind a test size != 0 (a dirty file whose first write failed has size 0 and no cluster;
+    # a panic there makes the handle impossible to close)
+    PAN = ("panicking::panic", "panicking::panic_fmt", "panicking::assert_failed", "panicking::panic_explicit", "panicking::panic_display")
+    is_size = lambda a: last_field(strip_refs(a)) == "size"
+    zero = lambda z: strip_refs(z)[:2] == ("c", 0)
+    for b, t in fn.calls():
+        c = callee_of(t) or ""
+        if any(c.endswith(x) for x in PAN) and not is_log_call(t):
+            ok = guarded(fn, b, g_cmp("Eq", False, is_size, zero))[0] or guarded(fn, b, g_cmp("Gt", True, is_size, zero))[0]
+            R.require(ok, fn, "assert-only-with-length", "flush_file can panic for a file of length 0 (dirty, but no cluster yet: its first write failed): the handle can then never be flushed or closed", fn.loc(b))
     fn2 = F.fn(FATVOL + "::write_entry_to_disk")
     rms = [(b, t) for b, t in fn2.calls() if call_matches(t, ("BlockCache::read_mut",))]
     okr = False
